@@ -511,16 +511,17 @@ def splitLastSign (t : Str) : Option (Str × Str) :=
   | sg :: before => some (before.reverse, sg :: suf.reverse)
 
 /-- time zone of the text after `T`: a final `Z`/`z` (UTC), else the last sign starts an offset,
-else local time — which the model takes to be UTC (the harness runs with TZ=UTC).
+else LOCAL time: `loc` is the offset (seconds east of UTC) of the process's time zone, taken to
+be one constant for all dates (true of UTC and of the zone the harness runs in, Asia/Kolkata).
 Result: (time text, offset seconds east of UTC). -/
-def splitZone (t : Str) : Option (Str × Int) :=
+def splitZone (loc : Int) (t : Str) : Option (Str × Int) :=
   match t.reverse with
-  | [] => some (t, 0)
+  | [] => some (t, loc)
   | l :: r =>
     if l = 'Z' ∨ l = 'z' then some (r.reverse, 0)
     else
       match splitLastSign t with
-      | none => some (t, 0)
+      | none => some (t, loc)
       | some (before, off) =>
         match parseOffset off with
         | none => none
@@ -529,19 +530,23 @@ def splitZone (t : Str) : Option (Str × Int) :=
 /-- C++ `int` arithmetic as observed (two's complement wrap-around; formally undefined behaviour) -/
 def wrap32 (v : Int) : Int := (v + 2147483648) % 4294967296 - 2147483648
 
-/-- assemble date + time + offset into the UTC civil date-time.  Qt keeps the offset in
-milliseconds in an `int` (`offset * 1000`), which wraps for offsets beyond ±596 h — reachable only
-through the `+−hhh:` form with a three-digit negative hour. -/
-def toUtc (date : Int × Nat × Nat) (tm : Tm) (offset : Int) : Dt :=
+/-- the UTC civil date-time of the wall-clock reading `date`, `tm` taken `offMs` milliseconds east of UTC -/
+def shiftUtc (date : Int × Nat × Nat) (tm : Tm) (offMs : Int) : Dt :=
   let d0 := if tm.midnight24 then nextDay date.1 date.2.1 date.2.2 else date
-  let ms : Int := ((tm.hour * 3600 + tm.minute * 60 + tm.second) * 1000 + tm.msec : Nat) - wrap32 (offset * 1000)
+  let ms : Int := ((tm.hour * 3600 + tm.minute * 60 + tm.second) * 1000 + tm.msec : Nat) - offMs
   let d1 := addDays (ms / 86400000) d0.1 d0.2.1 d0.2.2
   let r := (ms % 86400000).toNat
   ⟨d1.1, d1.2.1, d1.2.2, r / 3600000, r / 60000 % 60, r / 1000 % 60, r % 1000⟩
 
-/-- `QXmppUtils::datetimeFromString(s)` = `QDateTime::fromString(s, Qt::ISODate).toUTC()`;
-`none` = invalid QDateTime -/
-def dtParseCode (s0 : Str) : Option Dt :=
+/-- assemble parsed date + time + offset into the UTC civil date-time.  Qt keeps the offset in
+milliseconds in an `int` (`offset * 1000`), which wraps for offsets beyond ±596 h — reachable only
+through the `+−hhh:` form with a three-digit negative hour. -/
+def toUtc (date : Int × Nat × Nat) (tm : Tm) (offset : Int) : Dt :=
+  shiftUtc date tm (wrap32 (offset * 1000))
+
+/-- `QXmppUtils::datetimeFromString(s)` = `QDateTime::fromString(s, Qt::ISODate).toUTC()` in a
+process whose local time is `loc` seconds east of UTC; `none` = invalid QDateTime -/
+def dtParseCodeAt (loc : Int) (s0 : Str) : Option Dt :=
   let s := units s0
   if s.length < 10 then none
   else
@@ -549,17 +554,38 @@ def dtParseCode (s0 : Str) : Option Dt :=
     | none => none
     | some date =>
       match s.drop 10 with
-      | [] => some ⟨date.1, date.2.1, date.2.2, 0, 0, 0, 0⟩
+      | [] => some (toUtc date ⟨0, 0, 0, 0, false⟩ loc)   -- `date.startOfDay()`, local time
       | sep :: t =>
         if t.isEmpty then none
         else if sep ≠ 'T' ∧ sep ≠ 't' ∧ sep ≠ ' ' then none
         else
-          match splitZone t with
+          match splitZone loc t with
           | none => none
           | some (tt, off) =>
             match parseIsoTime tt with
             | none => none
             | some tm => some (toUtc date tm off)
+
+/-- `datetimeFromString` in a process running in UTC -/
+def dtParseCode (s0 : Str) : Option Dt := dtParseCodeAt 0 s0
+
+/-- A `QDateTime` as an application hands it to the library: the wall-clock reading `wall` in the
+value's own time spec, and `offset`, what that spec is ahead of UTC at that moment in seconds
+(`QDateTime::offsetFromUtc()`: 0 for Qt::UTC, the fixed offset for Qt::OffsetFromUTC, the zone's or
+the system's offset at that moment for Qt::TimeZone / Qt::LocalTime). -/
+structure Stamp where
+  wall : Dt
+  offset : Int
+  deriving DecidableEq, Repr
+
+/-- the instant, as UTC civil fields (`QDateTime::toUTC()`) -/
+def utcOf (x : Stamp) : Dt :=
+  shiftUtc (x.wall.year, x.wall.month, x.wall.day) ⟨x.wall.hour, x.wall.minute, x.wall.second, x.wall.msec, false⟩
+    (x.offset * 1000)
+
+/-- `datetimeToString(x)` for a value of ANY time spec: both branches (with and without
+milliseconds) convert to UTC first, so the text is the `Z` form of the instant -/
+def stampToStr (x : Stamp) : Str := dtToStr (utcOf x)
 
 /-- strict XEP-0082 DateTime profile: `CCYY-MM-DDThh:mm:ss[.sss]Z` (UTC only, exactly three
 fraction digits when present) -/
